@@ -217,6 +217,7 @@ def check(run):
     base_triangles(run, funcs)
     collectors(run, funcs)
     BR.check_face_loops(run, funcs, 'C14')
+    BR.check_cell_loop(run, funcs, 'C14')
     run.assume('that the signed tetrahedra sum to the cell (global tiling), second moments and with/without-faces agreement need the whole float pipeline: outside')
     return run.finish(LEVEL, EXPLANATION, trusted=['rustc (type checking of the downstream crates)', 'rustc -Zunpretty=mir', 'z3 5.1.0 / 4.8.12, cvc5 1.0.3', 'glam / std models of mirsym'])
 
